@@ -81,10 +81,10 @@ func shortArgs(args []any) string {
 func TestC11Stateful(t *testing.T) {
 	theT = t
 	col := ev.New("C11", "stateful",
-		"rapid: ownership histories (register at levels 2 and 3, transfer, setAdmin, renew; all by authorised signers) over 6 users; after every step, for every registered name and every role {owner, admin, former owner, former admin, parent owner, parent admin, stranger, committee, nobody} the full matrix of mutating methods {addRecord (name and an unregistered sub-name), setRecord, deleteRecords, updateSOA, renew, transfer, setAdmin, register of a sub-name} is evaluated by test invocation against the authorisation model: forbidden => FAULT (or false without any storage change for transfer), permitted => HALT; registerTLD/setPrice/update need the committee; level-2 register needs only the new owner's witness; setAdmin needs owner AND new admin; one forbidden attempt per step is also committed and must leave the NNS storage unchanged; non-trivial = the matrix was evaluated in a state with a former owner or former admin and a level-3 name whose parent has a different owner",
+		"rapid: ownership histories (register at levels 2 and 3, transfer, setAdmin, renew; all by authorised signers) over 6 users; after every step, for every registered name and every role {owner, admin, former owner, former admin, parent owner, parent admin, stranger, committee, nobody} the full matrix of mutating methods {addRecord (name and an unregistered sub-name), setRecord, deleteRecords, updateSOA, renew, transfer, setAdmin, register of a sub-name} is evaluated by test invocation against the authorisation model: forbidden => FAULT (or false without any storage change for transfer), permitted => HALT; registerTLD/setPrice/update need the committee majority n/2+1 (committees of 1, 3 and 4 keys; a single member, n/2 of n and the 2n/3+1 account are refused); level-2 register needs only the new owner's witness; setAdmin needs owner AND new admin; one forbidden attempt per step is also committed and must leave the NNS storage unchanged; non-trivial = the matrix was evaluated in a state with a former owner or former admin and a level-3 name whose parent has a different owner",
 		"all names are unexpired (expiry is C10)", "update's positive case is decided in C16")
 	runRapid(t, col, func(rt *rapid.T, h *ev.History) {
-		n := rapid.SampledFrom([]int{1, 1, 3}).Draw(rt, "n")
+		n := rapid.SampledFrom([]int{1, 1, 3, 4}).Draw(rt, "n")
 		w := newNnsWorld(n, h)
 		defer w.close()
 		r := newNnsRun(w, "C11")
@@ -251,11 +251,19 @@ func TestC11Stateful(t *testing.T) {
 				}
 			}
 			// ---- committee-only and level-2 rules
-			for _, role := range []struct {
+			type comRole struct {
 				name    string
 				signers []neotest.Signer
 				com     bool
-			}{{"committee", w.committee, true}, {"stranger", []neotest.Signer{stranger}, false}, {"a user", []neotest.Signer{users[0]}, false}, {"one committee member", []neotest.Signer{w.c.Member(0)}, w.c.N == 1 && false}} {
+			}
+			comRoles := []comRole{{"committee", w.committee, true}, {"stranger", []neotest.Signer{stranger}, false}, {"a user", []neotest.Signer{users[0]}, false}, {"one committee member", []neotest.Signer{w.c.Member(0)}, false}}
+			if w.c.N >= 2 {
+				comRoles = append(comRoles, comRole{fmt.Sprintf("one signature short of the majority (%d of %d)", w.c.N/2, w.c.N), []neotest.Signer{w.c.MultisigOf(w.c.N / 2)}, false})
+			}
+			if w.c.Alphabet.ScriptHash() != w.c.Committee.ScriptHash() {
+				comRoles = append(comRoles, comRole{"the Alphabet 2n/3+1 account (not the committee's)", []neotest.Signer{w.c.Alphabet}, false})
+			}
+			for _, role := range comRoles {
 				for _, a := range []c11Attempt{
 					{method: "registerTLD", args: []any{"neworg", "e@nspcc.io", int64(1), int64(1), int64(1000), int64(1)}},
 					{method: "setPrice", args: []any{int64(5)}},
